@@ -49,6 +49,8 @@ func VH_C09() {
 	vProduction()
 	const cNoColor = Level(41)
 	_ = RegisterLevel(cNoColor, "cnorm") // registered without RegWithColor
+	const cOneColor = Level(42)
+	_ = RegisterLevel(cOneColor, "cone", RegWithColor(color.FgRed)) // a foreground colour only
 	rec := &vRec{}
 	lg := New("x").(*logimp).Entry
 	lg.SetWriter(&recW{0, rec}).SetErrorWriter(&recW{0, rec}).SetLevel(TraceLevel)
@@ -61,7 +63,7 @@ func VH_C09() {
 	if vBool() {
 		lg.SetUTCMode(true)
 	}
-	sev := []Level{InfoLevel, ErrorLevel, cNoColor, Level(77)}[vChoose(4)]
+	sev := []Level{InfoLevel, ErrorLevel, cNoColor, Level(77), cOneColor}[vChoose(5)]
 	msg := []string{"m", "m\nn", "m\nn\n"}[vChoose(3)]
 	var attrs Attrs
 	switch vChoose(vParam("attrkinds", 4)) {
